@@ -444,6 +444,10 @@ def run(tier, procs=None, only=None):
     )
 
 
+# every real-library oracle of this property (each returns (reproduced, detail)); used to confirm structural facts that carry no replay of their own
+ALL_REPLAYS = [lambda c: replay_landscape('zncc', 1)(c), lambda c: replay_landscape('pcc', 2)(c), lambda c: replay_chunk_order((18, 24, 24))(c)]
+
+
 def replay(data):
     key = data.get("key", "")
     if "task-purity" in key:
